@@ -1,0 +1,10 @@
+//go:build verif
+
+package format
+
+import "github.com/bluenviron/mediacommon/v2/pkg/codecs/mpeg4audio"
+
+// VerifAllLayersSame exposes allLayersHaveSameTypeRateChannelsExtType to the verification harness.
+func VerifAllLayersSame(c *mpeg4audio.StreamMuxConfig) bool {
+	return allLayersHaveSameTypeRateChannelsExtType(c)
+}
